@@ -58,4 +58,33 @@ theorem witness_chain4 : Ancestors witnessGraph 4 [4, 0] := by
   refine .step (sc := ⟨.module ⟨3, 3⟩ (some 3), some 0, []⟩) (by decide) rfl ?_
   exact .root (sc := ⟨.root, none, []⟩) (by decide) rfl
 
+
+/-- `resolve_module_part_of_path` as on the pinned tree: the identifier after
+    the leading `super`s is looked up *with* recursion -/
+def supersPinned (g : Graph) : Nat → Name → List Name → Res PathRes
+  | s, id, rest =>
+    if id = SUPER then
+      match g.parentModule s with
+      | .panic p => .panic p
+      | .err e => .err e
+      | .ok none => .err .tooManySuper
+      | .ok (some dec) =>
+        match dec.scope with
+        | none => .panic .superNoScope
+        | some s' =>
+          match rest with
+          | [] => .ok ⟨id, dec, []⟩
+          | id' :: rest' => supersPinned g s' id' rest'
+    else segments g s id rest true
+
+/-- `pkg { import bb.gg; }  aa { }  bb { fn gg #103 }` (aa = 3, bb = 4, gg = 7) -/
+def witness2Mods : List Module :=
+  [ ⟨PKG, none, [.imports [[4, 7]]]⟩, ⟨3, some 0, []⟩, ⟨4, some 0, [.fn 7 103 (.mk [] [])]⟩ ]
+
+def witness2Graph : Graph :=
+  match checkModuleTree Graph.new witness2Mods with
+  | .ok out => out.g
+  | _ => Graph.new
+
+
 end RotoV.Scope
